@@ -124,11 +124,16 @@ def complete (v : Variant) (s : WState) : Except Err WState :=
   | .error e => .error e
   | .ok s1 => flushIndices v s1
 
-/-- a fresh field of the given backend, the parts written one `write_part` call each, then `complete()` -/
-def writeField (v : Variant) (c : Nat) (h5 : Bool) (parts : List (List Bytes)) : Except Err WState :=
-  match foldE (writePart v) (WState.init c (Arr.fresh h5) (Arr.fresh h5)) parts with
+/-- a new `WriteableIndexedFieldArray` on the arrays `ix`, `vals` (what `field.data` creates), the parts written one
+    `write_part` call each, then `complete()` -/
+def writeOnto (v : Variant) (c : Nat) (ix : Arr Nat) (vals : Arr Byte) (parts : List (List Bytes)) : Except Err WState :=
+  match foldE (writePart v) (WState.init c ix vals) parts with
   | .error e => .error e
   | .ok s => complete v s
+
+/-- the same on a field fresh from its constructor, memory-backed or HDF5 -/
+def writeField (v : Variant) (c : Nat) (h5 : Bool) (parts : List (List Bytes)) : Except Err WState :=
+  writeOnto v c (Arr.fresh h5) (Arr.fresh h5) parts
 
 /-! ### readers -/
 
